@@ -121,7 +121,7 @@ class NICObservation(AbstractObservation, discriminator="network-interface"):
         nic_max_bandwidth = nic_state.get("speed")
 
         bandwidth_utilisation = traffic_value / nic_max_bandwidth
-        return int(bandwidth_utilisation * 9) + 1
+        return min(int(bandwidth_utilisation * 9) + 1, 10)
 
     def _set_nmne_threshold(self, thresholds: List[int]):
         """
